@@ -250,6 +250,38 @@ func TestC17_LongForm(t *testing.T) {
 			upd = otherKey(t, rec)
 		}
 		opts := []vdrapi.DIDMethodOption{vdrapi.WithOption(longform.UpdatePublicKeyOpt, upd.Public()), vdrapi.WithOption(longform.RecoveryPublicKeyOpt, rec.Public())}
+		sizeBoundary := rapid.IntRange(0, 3).Draw(t, "sizeBoundary") == 0
+		if sizeBoundary {
+			// grow a padding service until the document is the largest one Create still accepts
+			mk := func(n int) (docdid.Service, map[string]interface{}) {
+				uri := "https://pad.example/" + strings.Repeat("a", n)
+				return docdid.Service{ID: "pad", Type: "Pad", ServiceEndpoint: endpoint.NewDIDCommV1Endpoint(uri)}, map[string]interface{}{"id": "pad", "type": "Pad", "serviceEndpoint": uri}
+			}
+			base := *d.doc
+			lo, hi := -1, 2600 // lo: accepted (or -1), hi: refused
+			for hi-lo > 1 {
+				mid := (lo + hi) / 2
+				sv, _ := mk(mid)
+				trial := base
+				trial.Service = append(append([]docdid.Service{}, base.Service...), sv)
+				if _, err := v.Create(&trial, opts...); err == nil {
+					lo = mid
+				} else {
+					hi = mid
+				}
+			}
+			if lo >= 0 {
+				n := lo - rapid.IntRange(0, 2).Draw(t, "belowBoundary")
+				if n < 0 {
+					n = 0
+				}
+				sv, want := mk(n)
+				d.doc.Service = append(d.doc.Service, sv)
+				d.svcs = append(d.svcs, want)
+			} else {
+				sizeBoundary = false
+			}
+		}
 		res, err := v.Create(d.doc, opts...)
 		if err != nil {
 			if strings.Contains(err.Error(), "exceeds maximum") {
@@ -437,6 +469,9 @@ func TestC17_LongForm(t *testing.T) {
 			st.Label("foreign-namespace")
 		}
 		labels := []string{"method-" + method, fmt.Sprintf("keys-%d", len(d.keys))}
+		if sizeBoundary {
+			labels = append(labels, "size-boundary")
+		}
 		for _, k := range d.keys {
 			labels = append(labels, "vm-"+k.typ)
 			if len(k.purposes) > 1 {
